@@ -384,10 +384,12 @@ def sym_numpy(E, p, kf):
         data = gen_cells(E, r * c, "int64")
         layout = E.choose("layout", ["C", "T"])      # row-major block, or the transposed view of a (c, r) block (column-major memory)
         m = _matrix(data, r, c, layout)
-        got = outcome(lambda: (RaggedArray.from_numpy_array(m), RaggedArray.from_numpy_array(m).to_numpy_array()))
+        got = outcome(lambda: (RaggedArray.from_numpy_array(m), RaggedArray.from_numpy_array(m).to_numpy_array(), RaggedArray.from_numpy_array(m)[::-1]))
         case = dict(what=what, r=r, c=c, data=data, layout=layout)
+        rev = [x for i in range(r - 1, -1, -1) for x in data[i * c:(i + 1) * c]]
         exp = dict(k="tuple", items=[dict(k="ragged", flat=data, lens=[c] * r, dtype="int64"),
-                                     dict(k="array", flat=data, shape=[r, c] if r else [0, 0], dtype="int64" if r else "*")])
+                                     dict(k="array", flat=data, shape=[r, c] if r else [0, 0], dtype="int64" if r else "*"),
+                                     dict(k="ragged", flat=rev, lens=[c] * r, dtype="int64")])
         return dict(goal=specs.obs_goal(got, exp), got=got, case=case)
     # to_numpy_array of a ragged array: accepted iff all rows equally long
     R, lens, S, data = gen(E, p, "int64")
@@ -410,9 +412,10 @@ def conc_numpy(case):
     if case["what"] == "from":
         r, c, data = case["r"], case["c"], case["data"]
         m = _matrix(data, r, c, case.get("layout", "C"))
-        got = outcome(lambda: (RaggedArray.from_numpy_array(m), RaggedArray.from_numpy_array(m).to_numpy_array()))
+        got = outcome(lambda: (RaggedArray.from_numpy_array(m), RaggedArray.from_numpy_array(m).to_numpy_array(), RaggedArray.from_numpy_array(m)[::-1]))
         exp = dict(k="tuple", items=[common.ref_ragged([data[i * c:(i + 1) * c] for i in range(r)], "int64"),
-                                     common.ref_array(data, [r, c] if r else [0, 0], "int64" if r else "*")])
+                                     common.ref_array(data, [r, c] if r else [0, 0], "int64" if r else "*"),
+                                     common.ref_ragged([data[i * c:(i + 1) * c] for i in range(r - 1, -1, -1)], "int64")])
         return got, exp
     lens, data = case["lens"], case["data"]
     ra = mk_ragged(RaggedArray, data, lens, "int64")
